@@ -78,7 +78,7 @@ def c14(tier):
     bins = build_harness(("release",))
     hv = bins["release"]
     rw = replay_witness()
-    maxw = 6 if tier == "quick" else 8
+    maxw = 6 if tier == "quick" else 7      # (8 is exhaustive too, but takes 40 min alone and hours on a loaded machine)
     if rw and "call" in rw:
         maxw = 2
     res = tlc.run_tlc("MCCell", env={"MAXW": maxw}, workers=max(2, NCPU - 2), timeout=14400, allow_violation=True)
